@@ -466,6 +466,9 @@ class DiscretizedSpace(TensorSpace):
                     iter(indices)
                 except TypeError:
                     labels = space.axis_labels[indices]
+                    if not isinstance(labels, tuple):
+                        # Single axis, must not be split into characters
+                        labels = (labels,)
                 else:
                     labels = tuple(space.axis_labels[int(i)]
                                    for i in indices)
